@@ -302,6 +302,11 @@ def add_paint(R, root, prob=0.3):
             a["stroke-opacity"] = R.choice(["0.5", "1", "0", ".75"])
         if R.random() < prob / 3:
             a["color"] = R.choice(["green", "#abc", "rgb(1,2,3)"])
+        if R.random() < 0.3:
+            # the same declarations through an inline style attribute instead (it overrides presentation attributes on the way back in)
+            moved = [(k, a.pop(k)) for k in ("fill", "stroke", "stroke-width", "fill-opacity", "stroke-opacity") if k in a and R.random() < 0.7]
+            if moved:
+                a["style"] = ";".join("%s:%s" % kv for kv in moved)
     return root
 
 
